@@ -245,6 +245,50 @@ def check_wrappers(res, tier, seed):
         return
 
 
+def check_wrapper_eager(res, tier, seed):
+  """envs.create-style stacking on an un-batched env: eager evaluation must
+  agree with jit, also when the same input state is evaluated twice."""
+  import jax
+  import jax.numpy as jp
+  from brax.envs.wrappers import training
+  from mc.props import c15
+  for L, R in ((4, 1), (3, 2)):
+    env = training.AutoResetWrapper(training.EpisodeWrapper(
+        c15.make_env(R), L, R))
+    key = jax.random.PRNGKey(3 + seed)
+    s0 = env.reset(key)
+    jstep = jax.jit(env.step)
+    for t in range(L + 2):
+      a = jp.zeros(R)
+      snap = jax.tree.map(lambda x: np.asarray(x).copy(), s0)
+      with jax.disable_jit():
+        e1 = env.step(s0, a)
+        e2 = env.step(s0, a)        # again from the SAME input state
+      j1 = jstep(s0, a)
+      res['evaluations'] += 1
+      res['nontrivial'] += 1
+      after = jax.tree.map(lambda x: np.asarray(x), s0)
+      same_in = jax.tree_util.tree_all(jax.tree.map(
+          lambda x, y: bool(np.array_equal(x, y)), snap, after))
+      pick = lambda s: (np.asarray(s.obs), float(s.reward), float(s.done),
+                        float(s.info['steps']), float(s.info['truncation']))
+      vals = [pick(e1), pick(e2), pick(j1)]
+      ok = all(np.array_equal(vals[0][0], v[0]) and vals[0][1:] == v[1:]
+               for v in vals[1:])
+      # (the wrappers do update the info dict of their input in place when
+      # run eagerly; that is only reported, the requirement is that re-evaluation
+      # from the same input and jit agree)
+      if not ok:
+        res['violations'].append(dict(
+            key='C07:wrapper-jit-vs-eager',
+            what='L=%d R=%d step %d: eager/eager-again/jit give (reward, '
+            'done, steps, truncation) %s / %s / %s; input state modified: %s'
+            % (L, R, t, vals[0][1:], vals[1][1:], vals[2][1:], not same_in),
+            case=dict(kind='wrapper-eager', seed=seed, tier=tier)))
+        return
+      s0 = j1
+
+
 def check_domain_randomization(res, tier, seed):
   import jax
   import jax.numpy as jp
@@ -266,10 +310,15 @@ def check_domain_randomization(res, tier, seed):
         'geom_friction': fr[:, None, None] * sys.geom_friction[None],
         'actuator.gear': ge[:, None] * sys.actuator.gear[None]})
     return sysv, in_axes
-  for name, backend in (('inverted_pendulum', 'generalized'),
-                        ('reacher', 'positional'), ('hopper', 'spring')):
+  for name, backend, inner in (('inverted_pendulum', 'generalized', False),
+                               ('inverted_pendulum', 'positional', True),
+                               ('reacher', 'positional', False),
+                               ('hopper', 'spring', False)):
     env = envs.get_environment(name, backend=backend)
     base_sys = env.sys
+    if inner:
+      # an already wrapped env (inner action repeat) under the DR wrapper
+      env = training.EpisodeWrapper(env, 1000, action_repeat=2)
     wenv = training.wrap(env, episode_length=1000, randomization_fn=rand_fn)
     keys = jax.random.split(jax.random.PRNGKey(7 + seed), n)
     rng = np.random.RandomState(11 + seed)
@@ -283,6 +332,8 @@ def check_domain_randomization(res, tier, seed):
                    np.asarray(st.done)))
     # solo: one executable with the member's system as an argument
     env2 = envs.get_environment(name, backend=backend)
+    if inner:
+      env2 = training.EpisodeWrapper(env2, 1000, action_repeat=2)
     sysv, _ = rand_fn(base_sys)
 
     def solo_reset(sys, key):
@@ -300,6 +351,8 @@ def check_domain_randomization(res, tier, seed):
           'actuator.gear': sysv.actuator.gear[m]})
       sys_m = phys.strip(sys_m)
       s = jr(sys_m, keys[m])
+      if inner:
+        s.info.update(steps=jp.zeros(()), truncation=jp.zeros(()))
       res['evaluations'] += 1
       res['nontrivial'] += 1
       for t in range(5):
@@ -353,6 +406,7 @@ def run_task(task):
     res['samples'].append(dict(kind='jit-vs-eager', pipe=task['pipe']))
   elif task['kind'] == 'wrappers':
     check_wrappers(res, tier, seed)
+    check_wrapper_eager(res, tier, seed)
     res['samples'].append(dict(kind='wrappers', schedules=64))
   else:
     check_domain_randomization(res, tier, seed)
@@ -368,8 +422,9 @@ def replay(rec):
     check_physics(c['spec'], c['pipe'], c['tier'], c['seed'], res)
   elif c['kind'] == 'eager':
     check_eager(c['spec'], c['pipe'], c['tier'], c['seed'], res)
-  elif c['kind'] == 'wrappers':
+  elif c['kind'] in ('wrappers', 'wrapper-eager'):
     check_wrappers(res, c['tier'], c['seed'])
+    check_wrapper_eager(res, c['tier'], c['seed'])
   else:
     check_domain_randomization(res, c['tier'], c['seed'])
   return (not res['violations']), '\n'.join(v['what'] for v in
